@@ -131,13 +131,15 @@ def run(ck, F):
             raise AnalysisBroken(f'no instantiation of {tmpl}')
         for cls in sorted(insts)[:40]:
             pbs = [f for f in F.fns_in(cls) if f['name'] == 'push_back']
+            # the insertion point of obj_list: its own data member of the list's iterator type (whatever it is called)
+            marks = {fl['name'] for fl in F.rec[cls]['fields'] if 'iterator' in fl['t']}
             for f in pbs:
                 names = [(n.get('callee') or {}).get('name') for n in walk(f['body']) if n.get('k') == 'call']
                 good = grow in names and not any(x in names for x in ('emplace_front', 'push_front', 'insert', 'emplace'))
                 if grow == 'emplace_after':
                     # mark = emplace_after(mark, ...): the insertion point is the last element inserted
                     def mentions_mark(x):
-                        return any(m.get('k') == 'member' and m.get('name') == 'mark' for m in walk(x))
+                        return any(m.get('k') == 'member' and m.get('name') in marks for m in walk(x))
                     asg = [n for n in walk(f['body']) if (n.get('k') == 'call' and (n.get('callee') or {}).get('name') == 'operator='
                                                           and mentions_mark(n.get('obj'))) or (n.get('k') == 'binop' and n.get('op') == '=' and mentions_mark(n.get('l')))]
                     ea = [n for n in walk(f['body']) if n.get('k') == 'call' and (n.get('callee') or {}).get('name') == 'emplace_after']
@@ -146,8 +148,12 @@ def run(ck, F):
                          f'{f["id"]} does not append at the end ({names})', loc=f['loc'], fn=f['id'])
     for cls in [n for n, r in F.rec.items() if r.get('template') == 'ipr::impl::obj_list']:
         ctor = [f for f in F.fns_in(cls) if f.get('ctor') and not f.get('copy')]
+        marks = {fl['name'] for fl in F.rec[cls]['fields'] if 'iterator' in fl['t']}
         for f in ctor:
-            good = any(i['kind'] == 'member' and i['name'] == 'mark' and 'before_begin' in str(i['e']) for i in f.get('inits', []))
+            good = any(i['kind'] == 'member' and i['name'] in marks and 'before_begin' in str(i['e']) for i in f.get('inits', [])) \
+                or any(n.get('k') == 'binop' and n.get('op') == '=' and strip_casts(n.get('l') or {}).get('name') in marks and 'before_begin' in str(n.get('r'))
+                       for n in walk(f.get('body'))) \
+                or any(fl['name'] in marks and 'before_begin' in str(fl.get('init')) for fl in F.rec[cls]['fields'])
             ck.check(R4, contracts.short(cls) + '::ctor', good, f'{f["id"]} does not start the insertion mark before the first element', loc=f['loc'], fn=f['id'])
     # ref_sequence exposes vector::push_back (append) and at()
     rs = F.need_rec('ipr::impl::ref_sequence<ipr::Expr>')
@@ -193,9 +199,7 @@ def run(ck, F):
                 for e in s2.effects[len(st.effects):]:
                     if e[0] == 'write':
                         root = e[1]
-                        while isinstance(root, tuple) and root and (root[0] in ('fld', 'deref', 'addr', 'index')
-                                                                       or (root[0] in ('call', 'after') and root[2] is not None)):
-                            root = root[2] if root[0] in ('call', 'after') else root[1]
+                        root = storage_root(F, root)
                         if root == ppgraph.PRINTER or (root[0] == 'obj' and root[1] not in base_objs):
                             continue
                         bad.append(contracts.render(e[1], s2, {}))
@@ -256,6 +260,22 @@ def run(ck, F):
         ck.check(R7, 'Printer::' + opt, not writers, f'Printer::{opt} is assigned by the library in {writers[:3]}: locations are then '
                  f'printed (or withheld) against the client\'s setting', loc=pr['loc'],
                  detail={'uses': readers_n})
+
+
+def storage_root(F, t):
+    """The object a written location belongs to.  A member call on X designates X's storage (operator<< returns its
+    printer); a free helper that takes the printer first and returns Printer& hands the same printer back."""
+    while isinstance(t, tuple) and t:
+        if t[0] in ('fld', 'deref', 'addr', 'index'):
+            t = t[1]
+        elif t[0] in ('call', 'after') and t[2] is not None:
+            t = t[2]
+        elif t[0] == 'call' and t[2] is None and t[3] and storage_root(F, t[3][0]) == ppgraph.PRINTER \
+                and (F.fn.get(t[1]) or {}).get('ret', '').replace('const ', '').strip() == 'ipr::Printer &':
+            t = ppgraph.PRINTER
+        else:
+            break
+    return t
 
 
 def guarded_by_flag(body, flag):
